@@ -839,6 +839,16 @@ func (e *Engine) execRange(st *State, fr *Frame, x *ssa.Range) {
 			it.Keys = append([]Value(nil), md.Keys...)
 			it.Vals = append([]Value(nil), md.Vals...)
 		}
+		if st.MapOrder == 3 {
+			// Go randomises the order per range statement: here every
+			// second one runs backwards, so code that relies on two ranges
+			// over one map agreeing meets a disagreement
+			// (counted per map object: the second, fourth ... range over the
+			// same map runs backwards)
+			ck := fmt.Sprintf("maprange#%d", b.Obj)
+			it.Rev = st.Counters[ck]%2 == 1
+			st.Counters[ck]++
+		}
 	default:
 		panic(unsupported(fmt.Sprintf("range over %T", v)))
 	}
@@ -883,6 +893,10 @@ func (e *Engine) execNext(st *State, fr *Frame, x *ssa.Next) {
 				}
 			}
 			if st.OrderPick == 1 {
+				pick = n - 1
+			}
+		case 3:
+			if it.Rev {
 				pick = n - 1
 			}
 		case 2:
